@@ -373,10 +373,22 @@ class RealCtx:
 def run_real(body, lib, shape, inputs):
     """Execute the harness body concretely.  -> (failures, observations, error-or-None)"""
     ctx = RealCtx(lib, inputs)
+    # the genuine package runs under the interpreter's usual recursion limit (the symbolic run needs
+    # a far higher one for the matcher and the term builder): recursion that grows with the input
+    # shows up here as RecursionError, as it would for a user
+    import sys
+
+    depth, f = 0, sys._getframe()
+    while f is not None:
+        depth, f = depth + 1, f.f_back
+    old = sys.getrecursionlimit()
+    sys.setrecursionlimit(min(old, depth + 1000))
     try:
         body(ctx, shape)
     except RealViolation:
         return ctx.failures, ctx.obs, "stopped-at-violation"
     except core.PathAbort:
         return ctx.failures, ctx.obs, "assumption-failed"
+    finally:
+        sys.setrecursionlimit(old)
     return ctx.failures, ctx.obs, None
